@@ -88,6 +88,40 @@ SC = [
                   "base": "{% autoescape None %}{% block t %}{% end %}{% include 'm2' %}",
                   "m2": "{% autoescape escape %}{{ v }}"},
      lambda v: "[" + E(v) + "]" + E(v)),
+    # ---- nested includes / blocks of depth >= 2: expression tags BEFORE and AFTER each include at every
+    # level; the intermediate files have a different setting than the files around them
+    (_DEF, _DEF, {"page.html": "{{ v }}{% include 'outer.html' %}{{ v }}",
+                  "outer.html": "{% autoescape None %}{{ v }}{% include 'inner.html' %}{{ v }}",
+                  "inner.html": "{{ v }}"},
+     lambda v: E(v) + R(v) + E(v) + R(v) + E(v)),
+    (_DEF, _DEF, {"p": "{{ v }}{% include 'a' %}{{ v }}",
+                  "a": "{% autoescape myesc %}{{ v }}{% include 'b' %}{{ v }}",
+                  "b": "{% autoescape None %}{{ v }}{% include 'c' %}{{ v }}",
+                  "c": "{{ v }}"},
+     lambda v: E(v) + M(v) + R(v) + E(v) + R(v) + M(v) + E(v)),
+    (_DEF, _DEF, {"p": "{{ v }}{% block t %}{{ v }}{% include 'o' %}{{ v }}{% end %}{{ v }}",
+                  "o": "{% autoescape None %}{{ v }}{% include 'i' %}{{ v }}", "i": "{{ v }}"},
+     lambda v: E(v) + E(v) + R(v) + E(v) + R(v) + E(v) + E(v)),
+    (_DEF, _DEF, {"m": "{% extends 'base' %}{% block t %}{{ v }}{% include 'inner' %}{{ v }}{% end %}",
+                  "base": "{% autoescape None %}{{ v }}{% block t %}{% end %}{{ v }}",
+                  "inner": "{% autoescape myesc %}{{ v }}{% include 'leaf' %}{{ v }}",
+                  "leaf": "{% autoescape None %}{{ v }}"},
+     lambda v: R(v) + E(v) + M(v) + R(v) + M(v) + E(v) + R(v)),
+    (_DEF, _DEF, {"p": "{% apply wrap %}{{ v }}{% include 'o' %}{{ v }}{% end %}{{ v }}",
+                  "o": "{% autoescape None %}{{ v }}{% include 'i' %}{{ v }}", "i": "{{ v }}"},
+     lambda v: "[" + E(v) + R(v) + E(v) + R(v) + E(v) + "]" + E(v)),
+    (_DEF, _DEF, {"p": "{% include 'n' %}{{ v }}{% include 'n' %}{{ v }}{% include 'w' %}{{ v }}",
+                  "n": "{% autoescape None %}{{ v }}", "w": "{% include 'n' %}{{ v }}"},
+     lambda v: R(v) + E(v) + R(v) + E(v) + R(v) + E(v) + E(v)),
+    (None, _DEF, {"p": "{{ v }}{% include 'a' %}{{ v }}",
+                  "a": "{% autoescape xhtml_escape %}{{ v }}{% block k %}{{ v }}{% include 'b' %}{{ v }}{% end %}{{ v }}",
+                  "b": "{{ v }}{% include 'c' %}{{ v }}", "c": "{% autoescape myesc %}{{ v }}"},
+     lambda v: R(v) + E(v) + E(v) + R(v) + M(v) + R(v) + E(v) + E(v) + R(v)),
+    (_DEF, _DEF, {"m": "{% extends 'mid' %}{% block t %}{{ v }}{% include 'n' %}{{ v }}{% end %}",
+                  "mid": "{% autoescape None %}{% extends 'base' %}{% block u %}{{ v }}{% include 'e' %}{{ v }}{% end %}",
+                  "base": "{% autoescape myesc %}{{ v }}{% block t %}{% end %}{{ v }}{% block u %}{% end %}{{ v }}",
+                  "n": "{% autoescape None %}{{ v }}", "e": "{{ v }}"},
+     lambda v: M(v) + E(v) + R(v) + E(v) + M(v) + R(v) + E(v) + R(v) + M(v)),
 ]
 # scenarios whose every tag is escaping (no raw / None anywhere reachable): the output must be free of
 # raw markup characters altogether
@@ -113,7 +147,8 @@ def pre_auto(sc: int, kind: int, s: str) -> bool:
 
 @harness(pre=pre_auto, quick=dict(L=1, timeout=120, reach_timeout=90), thorough=dict(L=2, timeout=900, reach_timeout=90),
          nshards=dict(quick=len(SC), thorough=len(SC)),
-         reach=["markup_value_escaped", "bytes_value", "object_value", "include_scoped", "extends_scoped"],
+         reach=["markup_value_escaped", "bytes_value", "object_value", "include_scoped", "extends_scoped",
+                "include_depth2_page_tag_after", "include_depth3", "extends_chain_with_includes"],
          units=["template._Expression.generate", "template._CodeWriter.include", "template._NamedBlock.generate",
                 "template._IncludeBlock.generate", "template._ApplyBlock.generate", "template._parse (autoescape)",
                 "template.Template.__init__", "template.Template.generate", "template.DictLoader",
@@ -121,7 +156,8 @@ def pre_auto(sc: int, kind: int, s: str) -> bool:
          stubs=[PRINT_STUB,
                 "template texts concrete: %d scenarios crossing {default, loader-level, Template(autoescape=), "
                 "{%% autoescape f %%}, {%% autoescape None %%}} x {plain, included, extended + block override, "
-                "inside apply, inside control blocks} x {{{ }}, {%% raw %%}}" % len(SC),
+                "inside apply, inside control blocks, nested includes/blocks of depth 2 and 3 with tags before and "
+                "after every include} x {{{ }}, {%% raw %%}}" % len(SC),
                 "value symbolic: str <= L cp without lone surrogates, given as str / UTF-8 bytes / object "
                 "whose __str__ returns it",
                 "second escaping function myesc(v) = '\\xab' + xhtml_escape(v) + '\\xbb' in the namespace"],
@@ -156,6 +192,12 @@ def h_auto(sc: int, kind: int, s: str):
         reached("include_scoped")
     if sc == 10:
         reached("extends_scoped")
+    if sc == 21:
+        reached("include_depth2_page_tag_after")
+    if sc == 22:
+        reached("include_depth3")
+    if sc == 28:
+        reached("extends_chain_with_includes")
     assert out == want, "scenario %d %r kind %d: generated %r, statement demands %r" % (
         sc, files, kind, out, want)
     if sc in ALL_ESCAPED:
